@@ -14,10 +14,12 @@ package c13
 import (
 	"bytes"
 	"fmt"
+	"net"
 	"strconv"
 	"strings"
 	"sync"
 	"sync/atomic"
+	"syscall"
 	"testing"
 	"time"
 
@@ -77,17 +79,47 @@ type wsMsg struct {
 	data []byte
 }
 
-// wsConn is one of the two WebSockets with a background reader.
+// wsConn is one client connection with a background reader that keeps every
+// message: a WebSocket (ws-rtsp, WSP control, WSP data), or - raw != nil - a plain
+// TCP connection whose byte stream the reader splits into items itself, one
+// "message" per complete item (backlog stress over RTSP/TCP).
 type wsConn struct {
 	ws   *websocket.Conn
+	raw  net.Conn
+	pace int64 // nanoseconds the reader rests after each message / read (0: reads as fast as it can)
 	mu   sync.Mutex
 	msgs []wsMsg
 	err  error
 	wmu  sync.Mutex
 }
 
-func dialWS(url, proto string) (*wsConn, error) {
-	d := websocket.Dialer{Subprotocols: []string{proto}, HandshakeTimeout: ioBound}
+// smallRcvBuf makes a dialer whose sockets get SO_RCVBUF = n before they
+// connect (n <= 0: system default), so that a slow reader backs the sender up
+// after a few KiB instead of a few MiB.
+func smallRcvBuf(n int) *net.Dialer {
+	d := &net.Dialer{Timeout: ioBound}
+	if n > 0 {
+		d.Control = func(network, address string, c syscall.RawConn) error {
+			var serr error
+			if err := c.Control(func(fd uintptr) {
+				serr = syscall.SetsockoptInt(int(fd), syscall.SOL_SOCKET, syscall.SO_RCVBUF, n)
+			}); err != nil {
+				return err
+			}
+			return serr
+		}
+	}
+	return d
+}
+
+func (p *wsConn) rest() {
+	if d := atomic.LoadInt64(&p.pace); d > 0 {
+		time.Sleep(time.Duration(d))
+	}
+}
+
+func dialWS(url, proto string, rcvbuf int) (*wsConn, error) {
+	d := websocket.Dialer{Subprotocols: []string{proto}, HandshakeTimeout: ioBound, NetDial: smallRcvBuf(rcvbuf).Dial}
 	ws, _, err := d.Dial(url, nil)
 	if err != nil {
 		return nil, err
@@ -108,14 +140,80 @@ func dialWS(url, proto string) (*wsConn, error) {
 			}
 			p.msgs = append(p.msgs, wsMsg{typ, data})
 			p.mu.Unlock()
+			p.rest()
 		}
 	}()
 	return p, nil
 }
 
+// dialTCP opens a plain RTSP/TCP connection. The reader applies the strict
+// grammar to the byte stream as it arrives and stores one entry per complete
+// item; bytes that cannot start an item end the reader with a FramingError.
+func dialTCP(addr string, rcvbuf int) (*wsConn, error) {
+	c, err := smallRcvBuf(rcvbuf).Dial("tcp", addr)
+	if err != nil {
+		return nil, err
+	}
+	p := &wsConn{raw: c}
+	go func() {
+		buf := make([]byte, 4096)
+		var pend []byte
+		off := 0
+		for {
+			n, err := c.Read(buf)
+			pend = append(pend, buf[:n]...)
+			for {
+				_, k, perr := rtspc.ParseItem(pend)
+				if perr != nil {
+					p.mu.Lock()
+					p.err = &rtspc.FramingError{Offset: off, What: perr.Error(), Near: append([]byte(nil), pend[:min(len(pend), 64)]...)}
+					p.mu.Unlock()
+					return
+				}
+				if k == 0 {
+					break
+				}
+				p.mu.Lock()
+				p.msgs = append(p.msgs, wsMsg{websocket.BinaryMessage, append([]byte(nil), pend[:k]...)})
+				p.mu.Unlock()
+				pend = append(pend[:0:0], pend[k:]...)
+				off += k
+			}
+			if err != nil {
+				p.mu.Lock()
+				p.err = err
+				p.mu.Unlock()
+				return
+			}
+			p.rest()
+		}
+	}()
+	return p, nil
+}
+
+func (p *wsConn) close() {
+	if p.raw != nil {
+		p.raw.Close()
+		return
+	}
+	p.ws.Close()
+}
+
+func (p *wsConn) localAddr() string {
+	if p.raw != nil {
+		return p.raw.LocalAddr().String()
+	}
+	return p.ws.LocalAddr().String()
+}
+
 func (p *wsConn) send(typ int, s string) error {
 	p.wmu.Lock()
 	defer p.wmu.Unlock()
+	if p.raw != nil {
+		p.raw.SetWriteDeadline(time.Now().Add(ioBound))
+		_, err := p.raw.Write([]byte(s))
+		return err
+	}
 	p.ws.SetWriteDeadline(time.Now().Add(ioBound))
 	return p.ws.WriteMessage(typ, []byte(s))
 }
@@ -123,6 +221,16 @@ func (p *wsConn) send(typ int, s string) error {
 func (p *wsConn) sendText(s string) error { return p.send(websocket.TextMessage, s) }
 
 func (p *wsConn) count() int { p.mu.Lock(); defer p.mu.Unlock(); return len(p.msgs) }
+
+// since returns the messages from index from on, and the reader's error.
+func (p *wsConn) since(from int) ([]wsMsg, error) {
+	p.mu.Lock()
+	defer p.mu.Unlock()
+	if from > len(p.msgs) {
+		from = len(p.msgs)
+	}
+	return append([]wsMsg(nil), p.msgs[from:]...), p.err
+}
 
 func (p *wsConn) snapshot() ([]wsMsg, error) {
 	p.mu.Lock()
@@ -234,17 +342,17 @@ func openWSP(t evid.TB, s *srv.Server, pl *plan, path string, exp *expectation) 
 	fail := func(x *wspSess, format string, a ...any) {
 		if x != nil {
 			if x.ctl != nil {
-				x.ctl.ws.Close()
+				x.ctl.close()
 			}
 			if x.data != nil {
-				x.data.ws.Close()
+				x.data.close()
 			}
 		}
 		t.Fatalf("machinery: wsp: "+format, a...)
 	}
 	x := &wspSess{url: s.RTSP(path), exp: exp, bySeq: map[string]string{}, seenSeq: map[string]int{}}
 	var err error
-	if x.ctl, err = dialWS(s.WS(path), "control"); err != nil {
+	if x.ctl, err = dialWS(s.WS(path), "control", 0); err != nil {
 		fail(x, "control dial: %v", err)
 	}
 	x.seq = 1
@@ -264,7 +372,7 @@ func openWSP(t evid.TB, s *srv.Server, pl *plan, path string, exp *expectation) 
 	// not this property's business - join again on a fresh data connection
 	x.seq = 2
 	for try := 0; ; try++ {
-		if x.data, err = dialWS(s.WS(path), "data"); err != nil {
+		if x.data, err = dialWS(s.WS(path), "data", pl.rcvBuf()); err != nil {
 			fail(x, "data dial: %v", err)
 		}
 		if err := x.data.sendText("WSP/1.1 JOIN\r\nchannel: " + r.Header["channel"] + "\r\nseq: 2\r\n\r\n"); err != nil {
@@ -276,7 +384,7 @@ func openWSP(t evid.TB, s *srv.Server, pl *plan, path string, exp *expectation) 
 		}
 		jr, err := parseWSP(m.data)
 		if err == nil && jr.Status == 404 && try < 100 {
-			x.data.ws.Close()
+			x.data.close()
 			time.Sleep(time.Millisecond)
 			continue
 		}
@@ -407,13 +515,13 @@ func runWSP(t evid.TB, pl *plan) *result {
 	defer srv.Unpublish(st)
 	e := &env{pl: pl, st: st, exp: newExpectation(), soft: true}
 	x := openWSP(t, s, pl, path, e.exp)
-	defer x.ctl.ws.Close()
-	defer x.data.ws.Close()
+	defer x.ctl.close()
+	defer x.data.close()
 	x.sentinel = e.sentinelBytes
 	x.dsc = newScanner(x.data, 1, e.sentinelBytes) // message 0 answered JOIN
 	e.se = x
 	e.tg = &target{in: sched.New(grace)}
-	addrs := []string{x.ctl.ws.LocalAddr().String(), x.data.ws.LocalAddr().String()}
+	addrs := []string{x.ctl.localAddr(), x.data.localAddr()}
 	register(e.tg, true, addrs...)
 	defer unregister(e.tg, addrs...)
 
@@ -431,7 +539,9 @@ func runWSP(t evid.TB, pl *plan) *result {
 		// occurrences of the window directives count from here
 		waitFor(time.Second, func() bool { return atomic.LoadInt64(&e.tg.passed) >= e.pubCount })
 		e.addWindows()
-		if len(pl.Requests) > 0 {
+		if pl.Backlog != nil {
+			res.v, res.whileBacked = e.runBacklog(backlogIO{slow: x.data, received: x.data.count, answered: x.ctl.count})
+		} else if len(pl.Requests) > 0 {
 			res.v = e.runStress()
 		} else {
 			res.v = e.runSteps()
@@ -461,8 +571,8 @@ func runWSP(t evid.TB, pl *plan) *result {
 	if res.v == nil && !res.complete {
 		res.v = &verdict{"drain", fmt.Sprintf("sentinel seen=%v, control messages %d for %d requests within %v (frames reaching the write point %d, written %d, published on subscribed channels %d)", x.sentinelSeen(), x.ctl.count()-1, e.exp.requests(), ioBound, atomic.LoadInt64(&e.tg.arrived), atomic.LoadInt64(&e.tg.passed), e.pubCount)}
 	}
-	x.ctl.ws.Close()
-	x.data.ws.Close()
+	x.ctl.close()
+	x.data.close()
 	srv.WaitFor(2*time.Second, func() bool { return srv.Consumers(path) == 0 })
 	return res
 }
